@@ -70,7 +70,7 @@ def c15(ctx):
     cov["stress"] = {"binary": os.path.basename(exe), "per_pair": dur, "wall_s": round(time.time() - t0, 1), "rc": rc,
                      "pairs": 153, "deadlocks": out.count("DEADLOCK"), "races": out.count("DATA RACE")}
     cov["traces_validated_against_impl"] = 153
-    dead = [l for l in out.splitlines() if l.startswith("DEADLOCK")]
+    dead = [l for l in out.splitlines() if l.startswith("DEADLOCK")]  # incl. DEADLOCK-OR-LOSS lines of the client fan-out
     races = "DATA RACE" in out
     if dead or races:
         sched = {"property": ctx["pid"], "kind": "concurrent Bundle operations deadlock or race on the real code",
